@@ -71,6 +71,16 @@ def corpus(seed, n):
     ]
     for cid, text in refused:
         cases.append((cid, None, text))
+    # degenerate shapes (code that can never run still has to be the same code)
+    k = 0
+    for shape in ["enum Never {}", "enum One { A }", "struct Unit;", "struct Empty {}", "struct EmptyT();", "enum E { A {}, B() }",
+                  "enum G<T> {}", "struct P<T>(::core::marker::PhantomData<T>);"]:
+        for ts in ["Debug(name = true)", "Clone", "Clone, Copy", "PartialEq", "PartialEq, Eq", "PartialEq, PartialOrd", "PartialEq, Eq, PartialOrd, Ord",
+                   "Hash", "Default", "Debug(name = true), Clone, PartialEq, Eq, PartialOrd, Ord, Hash"]:
+            if "Default" in ts and "enum" in shape and "One" not in shape:
+                continue
+            cases.append(("deg%d" % k, None, "#[derive(Educe)]\n#[educe(%s)]\n%s\n" % (ts, shape)))
+            k += 1
     # and the refused requests of C13's generator (one injected problem each)
     from . import c13
     for k in range(n // 8):
@@ -101,6 +111,10 @@ def main(tier, seed, scale=1.0):
 
     with cf.ThreadPoolExecutor(max_workers=min(NCPU, procs)) as ex:
         runs = list(ex.map(one, range(procs)))
+    # "nothing but the input tokens and the enabled features": the profile educe itself was compiled with (debug
+    # assertions on / off) is not an input either
+    exe_dbg = B.build_inproc("debug")
+    dbg = B._run_chunk(exe_dbg, list(feed), 1, False, 900)
     chk.rule = ("random derive requests biased towards several Into targets and many traits, each "
                 "expanded %d times in each of %d fresh processes (each process in its own order of expansion); non-trivial = accepted request whose "
                 "expansion has >= 2 impl items; distinct by source text" % (repeat, procs))
@@ -134,6 +148,17 @@ def main(tier, seed, scale=1.0):
                           (text, a[1][:1500], b[1][:1500]), {"input.rs": text, "a.txt": a[1], "b.txt": b[1]})
             continue
         st, out = outs[0]
+        o = dbg.get(cid)
+        if o is None or o.get("st") in ("harness", "crash", "timeout", "panic"):
+            chk.inconc("debug-runner-" + (o or {}).get("st", "missing"))
+            continue
+        dv = (o["st"], o.get("out") if o["st"] == "ok" else o.get("msg"))
+        chk.evaluations += 1
+        if dv != (st, out):
+            chk.violation("nondeterministic|build-profile", "the expansion differs between a debug build and a release build of educe\n"
+                          "input:\n%s\nrelease: %s\ndebug:   %s" % (text, (out or "")[:1500], (dv[1] or "")[:1500]),
+                          {"input.rs": text, "release.txt": out or "", "debug.txt": dv[1] or ""})
+            continue
         nontrivial = st == "ok" and out.count("impl ") >= 2
         chk.held(digest(text), nontrivial, 0)
         chk.count(st)
